@@ -50,10 +50,11 @@ impl Prop for C08 {
         let mut out = vec![];
         for (n, t) in shapes(tier) {
             for suite in REAL_SUITES {
-                if suite == "ed448" && n > 3 {
+                if suite == "ed448" && n > tier.pick(3, 5) {
                     continue;
                 }
-                for idkind in [IdKind::Seq, IdKind::U16x] {
+                let kinds: Vec<IdKind> = if tier == Tier::Quick { vec![IdKind::Seq, IdKind::U16x] } else { vec![IdKind::Seq, IdKind::U16x, IdKind::Derived, IdKind::Big] };
+                for idkind in kinds {
                     if tier == Tier::Quick && idkind == IdKind::Seq && n > 3 {
                         continue;
                     }
@@ -77,8 +78,8 @@ impl Prop for C08 {
 
 fn shapes(tier: Tier) -> Vec<(u16, u16)> {
     match tier {
-        Tier::Quick => vec![(2, 2), (3, 2), (3, 3), (4, 3)],
-        Tier::Thorough => vec![(2, 2), (3, 2), (3, 3), (4, 2), (4, 3), (4, 4), (5, 3)],
+        Tier::Quick => vec![(2, 2), (3, 2), (3, 3), (4, 2), (4, 3), (4, 4), (5, 3)],
+        Tier::Thorough => vec![(2, 2), (3, 2), (3, 3), (4, 2), (4, 3), (4, 4), (5, 3), (5, 4), (5, 5), (6, 3), (6, 5), (7, 4)],
     }
 }
 
